@@ -120,6 +120,11 @@ impl Targets {
         }
     }
 
+    #[cfg(chess_verif)]
+    pub fn clear_attacks_cache_for_verif(&mut self) {
+        self.attacks_cache.clear();
+    }
+
     pub fn get_cached_attack(&self, color: Color, board_hash: u64) -> Option<Bitboard> {
         self.attacks_cache.get(&(color as u8, board_hash)).copied()
     }
